@@ -80,6 +80,8 @@ module Nat :
 
   val ltb : nat -> nat -> bool
 
+  val min : nat -> nat -> nat
+
   val divmod : nat -> nat -> nat -> nat -> nat * nat
 
   val div : nat -> nat -> nat
@@ -275,7 +277,7 @@ type 'a outcome =
 | Ret of 'a
 | Raise of exn
 
-val py_pos : nat -> z -> nat option
+val clip : z -> z -> z
 
 val uint_of_char : char -> uint option -> uint option
 
@@ -578,8 +580,6 @@ val model_lines : char list -> char list list
 
 val split_M : char list -> char list list * exn option
 
-val mem_string : char list -> char list list -> bool
-
 val dict_combine :
   char list -> symbol -> (char list * symbol) list -> (char list * symbol)
   list outcome
@@ -659,6 +659,7 @@ type chk_res =
 | ChkSyntaxWarning
 | ChkOtherWarning of nat
 | ChkOtherExn
+| ChkCaughtExn
 
 type verdict =
 | VFine
